@@ -437,17 +437,32 @@ func (s *HASyncer) broadcastLoop() {
 
 // broadcastToClients sends a message to all connected SSE clients.
 func (s *HASyncer) broadcastToClients(msg *SyncMessage) {
-	s.sseClientsMu.RLock()
-	defer s.sseClientsMu.RUnlock()
+	var lagging []string
 
+	s.sseClientsMu.RLock()
 	for clientID, ch := range s.sseClients {
 		select {
 		case ch <- msg:
 		default:
-			s.logger.Warn("Client channel full, dropping message",
-				zap.String("client", clientID),
-			)
+			lagging = append(lagging, clientID)
 		}
+	}
+	s.sseClientsMu.RUnlock()
+
+	// A standby that missed one change can no longer converge from the stream alone:
+	// disconnect it so that it reconnects and starts over with a full synchronisation
+	if len(lagging) > 0 {
+		s.sseClientsMu.Lock()
+		for _, clientID := range lagging {
+			if ch, ok := s.sseClients[clientID]; ok {
+				delete(s.sseClients, clientID)
+				close(ch)
+				s.logger.Warn("Client channel full, disconnecting client for resync",
+					zap.String("client", clientID),
+				)
+			}
+		}
+		s.sseClientsMu.Unlock()
 	}
 }
 
